@@ -5,7 +5,7 @@ import json, os, shutil, subprocess, sys
 sid, prop, needs, caught = sys.argv[1:5]
 PFX = os.environ.get("PFX", "seed")
 src = "/tmp/%s-%s-out" % (PFX, sid)
-dst = "/verif/seeded/%s%s" % (sid, "-2" if PFX == "seed2" else "")
+dst = "/verif/seeded/%s%s" % (sid, "-2" if PFX == "seed2" else ("-3" if PFX == "seed3" else ""))
 os.makedirs(dst, exist_ok=True)
 for name in os.listdir(src):
     p = os.path.join(src, name)
